@@ -139,6 +139,7 @@ def is_functional(ops):
 
 def gen_synthetic(rng, nsess, functional=True):
     keymap = {}
+    used = []
     groups, cur = [], []
     nrev = 0
     for _ in range(nsess):
@@ -150,6 +151,9 @@ def gen_synthetic(rng, nsess, functional=True):
             fid = rng.choice(FIDS)
             rev = rng.choice([revid, revid, rng.choice(REVS), b"%s-%d" % (rng.choice(REVS), rng.randrange(max(1, nrev)))])
             sha = rng.choice(SHAS[:6] + ([EMPTY_TREE] if kind == "t" else []))
+            if not functional and used and rng.random() < 0.35:
+                kind, fid, rev = rng.choice(used)            # re-bind a key that is already recorded
+            used.append((kind, fid, rev))
             # a (fileid, revision) key belongs to one kind (DictGitShaMap shares one dict for both)
             if keymap.setdefault(("kind", fid, rev), kind) != kind:
                 continue
@@ -522,7 +526,7 @@ def classify(ops, q, name, ans, ref):
     return None
 
 
-def direct_laws(ops, qs, answers):
+def direct_laws(ops, qs, answers, rows=True):
     """'lookup after add' on one backend's answers; returns [(query, what)]"""
     bad = []
     amap = {enc_query(q): a for q, a in zip(qs, answers)}
@@ -556,7 +560,7 @@ def direct_laws(ops, qs, answers):
             want = ",".join(sorted(hx(x) for x in known)) or "-"
             if a != want:
                 bad.append((q, "revids() = %s, expected %s" % (a, want)))
-        if q[0] == "g":
+        if q[0] == "g" and rows:
             es = entries_of(ops, q[1])
             got = [] if a == "E" else a.split(",")
             miss = [e for e in es if e not in got]
@@ -638,6 +642,12 @@ def run_sequence(ctx, source, groups, functional, sink):
                                           family=fam)
             if not functional:
                 ctx.count("nonfunctional-checkpoints")
+                # the override rule (the newest add of a key wins) on the two backends that implement it
+                for n in ("dict", "sqlite"):
+                    for q, what in direct_laws(prefix, qs, answers[n], rows=False)[:4]:
+                        i = [enc_query(x) for x in qs].index(enc_query(q))
+                        fam = classify(prefix, q, n, answers[n][i], answers["dict"][i]) if n != "dict" else None
+                        ctx.violation(dict(base_case, backend=n, checkpoint=gi, query=enc_query(q)), "%s backend: %s" % (n, what), family=fam)
                 continue
             ctx.count("functional-checkpoints")
             if shared:
